@@ -25,6 +25,10 @@ type scenario struct {
 	damage  func(rng *rand.Rand, sc *scenario, disk map[string][]byte) []string // returns descriptions
 	volLoss string                                                              // none | some | all | keepfirstlast
 	dc      bool
+	// staleOf: if set, the recovery VOLUMES come from a set created over these (slightly different) contents - same
+	// names, lengths and first 16 KiB, hence the same file ids and the same recovery-set id: authentic packets of
+	// the right set whose blocks do not belong to the data the index describes
+	staleOf map[string][]byte
 }
 
 func genContent(rng *rand.Rand, n int, kind int, s int) []byte {
@@ -61,6 +65,7 @@ func genContent(rng *rand.Rand, n int, kind int, s int) []byte {
 		for i := range b {
 			b[i] = 0xFF
 		}
+	case 6: // all zero (every recovery block of an all-zero set is zero)
 	case 5: // periodic: a fixed-width record repeated (period divides the slice size where it can)
 		per := []int{1, 2, 4, 8}[rng.Intn(4)]
 		if s%per != 0 {
@@ -267,7 +272,12 @@ func makeScenario(rng *rand.Rand, idx int, thorough bool) *scenario {
 		}
 		total += n
 		sc.names = append(sc.names, name)
-		sc.prot[name] = genContent(rng, n, rng.Intn(6), sc.s)
+		sc.prot[name] = genContent(rng, n, rng.Intn(7), sc.s)
+		if i > 0 && (i+idx)%5 == 1 {
+			// an identical copy of the previous file under another name (every slice occurs an even number of times:
+			// recovery block 0, the plain XOR of all slices, loses their contribution)
+			sc.prot[name] = append([]byte{}, sc.prot[sc.names[i-1]]...)
+		}
 	}
 	// keep the slice count moderate for tiny slice sizes
 	nsl := 0
@@ -389,6 +399,29 @@ func limitScenario(rng *rand.Rand) *scenario {
 	return sc
 }
 
+// staleScenario: the index of one version of a set together with the recovery volumes of another version that has
+// the same recovery-set id (the files differ only beyond their first 16 KiB); the big file is lost.  Whatever Repair
+// reconstructs from those blocks is not the protected data: it must refuse (hash check) and write nothing.
+func staleScenario(rng *rand.Rand) *scenario {
+	sc := &scenario{prot: map[string][]byte{}, s: 2000, r: 12, g: 3, volLoss: "none", staleOf: map[string][]byte{}}
+	sc.names = []string{"big.bin", "small.bin"}
+	big := make([]byte, 20000)
+	rng.Read(big)
+	small := make([]byte, 700)
+	rng.Read(small)
+	sc.prot["big.bin"], sc.prot["small.bin"] = big, small
+	other := append([]byte{}, big...)
+	other[17000] ^= 0x40
+	other[19999] ^= 0x01
+	sc.staleOf["big.bin"], sc.staleOf["small.bin"] = other, small
+	sc.desc = "index of one version, recovery volumes of another version with the same set id"
+	sc.damage = func(rng *rand.Rand, sc *scenario, disk map[string][]byte) []string {
+		disk["big.bin"] = nil
+		return []string{"delete big.bin"}
+	}
+	return sc
+}
+
 func runP2Big(args []string) error {
 	c := newCommon("p2big")
 	count := c.fs.Int("n", 0, "number of scenarios (0 = tier default)")
@@ -417,6 +450,8 @@ func runP2Big(args []string) error {
 			sc = siblingScenario(rng)
 		} else if idx == 12 {
 			sc = limitScenario(rng)
+		} else if idx == 15 {
+			sc = staleScenario(rng)
 		} else {
 			sc = makeScenario(rng, idx, thorough)
 		}
@@ -434,6 +469,21 @@ func runScenario(c *common, lg *tracelog.Log, rng *rand.Rand, idx int, sc *scena
 	a, err := buildArch(dir, sc.names, sc.prot, sc.s, sc.r, sc.g, bname)
 	if err != nil {
 		return err
+	}
+	if sc.staleOf != nil {
+		b, err := buildArch(filepath.Join(c.dir, fmt.Sprintf("big-%d-stale", idx)), sc.names, sc.staleOf, sc.s, sc.r, sc.g, bname)
+		if err != nil {
+			return err
+		}
+		os.RemoveAll(filepath.Join(c.dir, fmt.Sprintf("big-%d-stale", idx)))
+		if !bytes.Equal(a.IndexB[:64], b.IndexB[:64]) && len(a.VolFiles) != len(b.VolFiles) {
+			return fmt.Errorf("stale scenario: the two sets differ in layout")
+		}
+		for _, v := range a.VolFiles {
+			if vb, ok := b.VolB[v]; ok {
+				a.VolB[v] = vb
+			}
+		}
 	}
 	a.Others["readme.txt"] = []byte("bystander")
 	a.Others["other/deep/file.bin"] = []byte{9, 9, 9}
@@ -526,7 +576,7 @@ func runScenario(c *common, lg *tracelog.Log, rng *rand.Rand, idx int, sc *scena
 		missingSure = missingSure[:40] // only used to justify "singular"; larger systems are not justified here
 	}
 	index := filepath.Join(dir, a.Index)
-	base := tracelog.M{"ev": "bigop", "scn": idx, "desc": sc.desc, "damage": dmg, "volloss": sc.volLoss, "s": sc.s, "r": sc.r, "g": sc.g,
+	base := tracelog.M{"ev": "bigop", "scn": idx, "desc": sc.desc, "damage": dmg, "volloss": sc.volLoss, "stale": sc.staleOf != nil, "s": sc.s, "r": sc.r, "g": sc.g,
 		"n": tr.N, "nsurv": tr.NSurv, "nocc": tr.NOcc, "intact": intact, "exps": exps, "missing_sure": missingSure,
 		"nmissing_sure": tr.N - tr.NOcc, "ambiguous": ambiguous}
 	emit := func(op string, extra tracelog.M) {
